@@ -8,6 +8,7 @@ From Dht Require Import Compact Bencode Krpc RunCodec.
 From Dht Require Query Lookups RunLookups.
 From Dht Require RunLookupsSends.
 From Dht Require RunLookupsClosest.
+From Dht Require Maint RunMaint.
 Require Import ExtrOcamlBasic.
 Extraction Language OCaml.
 Extraction "model.ml"
@@ -32,4 +33,5 @@ Extraction "model.ml"
   RunApi.ra_mk_ent RunApi.ra_counts RunApi.ra_accept RunApi.ra_why RunApi.ra_accept_s RunApi.ra_why_s RunApi.ra_run RunApi.ra_observe RunApi.ra_mk_peer RunApi.ra_store_get RunApi.ra_values RunApi.ra_na_ip RunApi.ra_na_port
   RunLookups.rl_view_sends RunLookups.rl_view_peers RunLookups.rl_view_result RunLookups.rl_view_flags RunLookups.rl_view_nq RunLookups.rl_view_stopping RunLookups.rl_cfg_api
   RunLookupsSends.rls_take
-  RunLookupsClosest.rlc_exact RunLookupsClosest.rlc_view_closest.
+  RunLookupsClosest.rlc_exact RunLookupsClosest.rlc_view_closest
+  RunMaint.rm_cfg RunMaint.rm_node RunMaint.rm_node_id RunMaint.rm_node_ip RunMaint.rm_node_port RunMaint.rm_node_failed RunMaint.rm_node_addr_view RunMaint.rm_class RunMaint.rm_boot RunMaint.rm_pass RunMaint.rm_phase_view.
